@@ -78,7 +78,7 @@ func checkC15(c *Ctx) {
 	checkLexerVsTypeSyntax(c, "C15.g", f)
 	checkBaseNameTables(c, "C15.h", f)
 	checkRelevantReviewedForms(c, f, "C15.z", "the type grammar or the type printer",
-		primSet("parseType", "parseTypeArrows", "parseElemType", "parseTermType", "parseAtomType", "parseTypeList", "mightParseSpecifiedTypeList", "FTypeToGo", "funcTypeToGo", "fTupleToGo", "fSliceToGo", "fpToGo", "recordTypeToGo", "fUnionToGo", "tArgsToGo", "scLookupTypeFac"), 25)
+		primSet("parseType", "parseTypeArrows", "parseElemType", "parseTermType", "parseAtomType", "parseTypeList", "mightParseSpecifiedTypeList", "FTypeToGo", "funcTypeToGo", "fTupleToGo", "fSliceToGo", "fpToGo", "recordTypeToGo", "fUnionToGo", "tArgsToGo", "scLookupTypeFac"), 20)
 	// the explicit-type-argument position: `<` directly after a name starts a type list, whatever token the first type begins with
 	c.expectNF(f, "C15.e", "mightParseSpecifiedTypeList", []string{"if(psCurIs(var:New_TokenType_LT, p1), (psConsume(var:New_TokenType_GT, #0(parseTypeList(p0, psConsume(var:New_TokenType_LT, p1)))), #1(parseTypeList(p0, psConsume(var:New_TokenType_LT, p1)))), (p1, emptyFtps()))"},
 		"at `<` a comma-separated list of full types up to `>` is parsed; otherwise no type arguments")
